@@ -61,4 +61,24 @@ CHECKS = {
   'text': 'For every leaf: notmodified => empty raw content and main.js hands back the caller\'s text byte for byte (NonCacheRewriter and CacheRewriter); modified => at least one hook call site, the prologue and a decodable trailer; an input holding a REQUIRED operation is never reported not-modified; an empty method list is always not-modified.',
   'note': _NATIVE + '; main.js is the real file, the wasm class it loads is a stand-in answered by the native service',
  },
+ 'C09': {
+  'technique': 'bounded-exhaustive exploration (families A,B,C,M as written + representative programs x 8 layout transforms x 6 file names x comments, + files carrying sourceMappingURL comments); independent VLQ decoder and greatest-lower-bound lookup over the decoded trailer',
+  'text': 'For every explored output: the trailer is a version-3 map whose sources is exactly the input base name; every segment lies inside the input text; every variable reference/binding copied from the input (paired with its input node by the lock-step walk) has a segment of its own pointing at its exact original line and column; every segment on a code token inside a statement maps into the input line span of that statement, every statement and injected let starts with a mapping of its own, injected lets map into their block.',
+  'note': _NATIVE + '; columns are UTF-16 units, no astral characters; property names (non-references) are judged by the line-span rule only',
+ },
+ 'C10': {
+  'technique': 'explicit enumeration of reference kinds x reader answers x original-map shapes x chain x comments x look-alike text (k deviations), three real calls per leaf; independent two-step composition compared entry by entry with the decoded trailer',
+  'text': 'With chaining on and a usable original map (inline, charset data URL, relative, ./, ../, absolute, block comment form, last of two comments) every entry of the trailer equals rewrite-map-then-original-map (global greatest-lower-bound, sourceRoot resolved, names) and the reader was asked for exactly the resolved path; otherwise the trailer equals the plain rewrite map; the content ends with exactly one trailer and, minus trailer and removed comment, equals the content of the same program without the reference, so look-alike strings, templates, regexes and comments are intact.',
+  'note': _NATIVE + '; in-memory FileReader with the trait-default parent(); synthetic original maps',
+ },
+ 'C11': {
+  'technique': 'breadth-first search over histories of rewrite events on the real CacheRewriter (fresh module instances per history) + exhaustive single-file and on-disk families; real V8 call sites on both prepareStackTrace paths',
+  'text': 'After every event of every history (rewrite A v1 / A v2 / B / A not modified / A syntax error / A chained, length <= h) every generator-known throw site of every loaded file is thrown: frames inside a rewritten file must report the original path and a known original line (chained: the .ts path and line), frames of other files must be byte-identical to V8\'s rendering, eval origins are translated on the string path, nothing throws; getOriginalPathAndLineFromSourceMap is driven over 11 kinds of on-disk files x 8 argument shapes.',
+  'note': 'real main.js / js/source-map / js/stack-trace of the working tree; lru-cache and the wasm class are stand-ins (bridge.js) answering from the native service; only lines are judged, not columns',
+ },
+ 'C14': {
+  'technique': 'explicit enumeration of literal placements x byte lengths around both bounds (ASCII, 2- and 3-byte characters) x layout x multiplicity x modified/unmodified x literals option; generator-known table compared as a set with the report',
+  'text': 'The generator assembles every program and knows each literal\'s offset, value, byte length, exclusion and initialised name; the reported (value, line, column, ident) set must equal the table exactly, every location once, equal values grouped, the input text at each position must hold the literal, nothing is reported when disabled, and the report under the full configuration must equal the report with nothing enabled.',
+  'note': _NATIVE + '; columns in code points, no astral characters',
+ },
 }
